@@ -337,13 +337,14 @@ fn run_key(cap: usize, ops: &[(String, HashMap<String, i64>)], out: &mut Out) {
             }
             "into_ordered_vec" => {
                 let tr = tree.take().unwrap();
+                let stored = stored_key(&tr).unwrap_or(inserted);
                 let r = tr.into_ordered_vec(t);
                 let e = rf.export(t);
                 if r != e {
                     out.mismatch(i, "C07:export-live-in-order", format!("expected {:?} got {:?}", e, r));
                 }
-                if r.capacity() > 2 * inserted + 8 {
-                    out.mismatch(i, "C19:returned-capacity-linear", format!("capacity {} for {} inserted entries", r.capacity(), inserted));
+                if r.capacity() > 2 * stored + 8 {
+                    out.mismatch(i, "C19:returned-capacity-linear", format!("capacity {} for {} stored entries", r.capacity(), stored));
                 }
                 check_cmp = false;
             }
@@ -364,6 +365,30 @@ fn run_key(cap: usize, ops: &[(String, HashMap<String, i64>)], out: &mut Out) {
             snapshot_key(tr, i, out);
         }
     }
+    #[cfg(ishape_rust_itree_verif)]
+    if std::env::var("VERIF_DUMP").is_ok() {
+        if let Some(tr) = tree.as_ref() {
+            let (root, unused, nodes) = tr.verif_snapshot();
+            let ns: Vec<String> = nodes.iter().map(|n| format!("{}:{}:{}:{}:{}:{}:{}", n.0, n.1, n.2, n.3 as u8, n.4.k, n.4.x, n.5)).collect();
+            println!("SNAP root={} unused={:?} nodes={}", root, unused, ns.join(","));
+        }
+    }
+}
+
+#[cfg(ishape_rust_itree_verif)]
+fn stored_key(tr: &KeyExpTree<Key, u8, u8>) -> Option<usize> {
+    let (root, _, nodes) = tr.verif_snapshot();
+    fn cnt(i: u32, nodes: &[(u32, u32, u32, bool, Key, u8)], d: usize) -> usize {
+        if i == EMPTY_REF || i as usize >= nodes.len() || d > nodes.len() {
+            return 0;
+        }
+        1 + cnt(nodes[i as usize].1, nodes, d + 1) + cnt(nodes[i as usize].2, nodes, d + 1)
+    }
+    Some(cnt(root, &nodes, 0))
+}
+#[cfg(not(ishape_rust_itree_verif))]
+fn stored_key(_: &KeyExpTree<Key, u8, u8>) -> Option<usize> {
+    None
 }
 
 #[cfg(ishape_rust_itree_verif)]
@@ -415,6 +440,7 @@ trait MS {
     fn is_empty(&self) -> bool;
     fn snap(&self, i: usize, out: &mut Out);
     fn pid(&self) -> &'static str;
+    fn dump(&self) -> String;
 }
 impl MS for MapTree<u8, u8> {
     fn insert(&mut self, k: u8, v: u8) { MapCollection::insert(self, k, v) }
@@ -431,6 +457,14 @@ impl MS for MapTree<u8, u8> {
     fn is_empty(&self) -> bool { MapCollection::is_empty(self) }
     fn snap(&self, i: usize, out: &mut Out) { snapshot_map(self, i, out) }
     fn pid(&self) -> &'static str { "C04" }
+    #[cfg(ishape_rust_itree_verif)]
+    fn dump(&self) -> String {
+        let (root, unused, nodes) = self.verif_snapshot();
+        let ns: Vec<String> = nodes.iter().map(|n| format!("{}:{}:{}:{}:{}:0:{}", n.0, n.1, n.2, n.3 as u8, n.4, n.5)).collect();
+        format!("SNAP root={} unused={:?} nodes={}", root, unused, ns.join(","))
+    }
+    #[cfg(not(ishape_rust_itree_verif))]
+    fn dump(&self) -> String { String::new() }
 }
 impl MS for SetTree<u8, Item> {
     fn insert(&mut self, k: u8, v: u8) { SetCollection::insert(self, Item { key: k, payload: v }) }
@@ -447,6 +481,14 @@ impl MS for SetTree<u8, Item> {
     fn is_empty(&self) -> bool { SetCollection::is_empty(self) }
     fn snap(&self, i: usize, out: &mut Out) { snapshot_set(self, i, out) }
     fn pid(&self) -> &'static str { "C05" }
+    #[cfg(ishape_rust_itree_verif)]
+    fn dump(&self) -> String {
+        let (root, unused, nodes) = self.verif_snapshot();
+        let ns: Vec<String> = nodes.iter().map(|n| format!("{}:{}:{}:{}:{}:0:{}", n.0, n.1, n.2, n.3 as u8, n.4.key, n.4.payload)).collect();
+        format!("SNAP root={} unused={:?} nodes={}", root, unused, ns.join(","))
+    }
+    #[cfg(not(ishape_rust_itree_verif))]
+    fn dump(&self) -> String { String::new() }
 }
 
 fn run_ms<T: MS>(tr: &mut T, ops: &[(String, HashMap<String, i64>)], out: &mut Out) {
@@ -545,6 +587,9 @@ fn run_ms<T: MS>(tr: &mut T, ops: &[(String, HashMap<String, i64>)], out: &mut O
             other => panic!("unknown op {}", other),
         }
         tr.snap(i, out);
+    }
+    if std::env::var("VERIF_DUMP").is_ok() {
+        println!("{}", tr.dump());
     }
 }
 
